@@ -296,6 +296,21 @@ func (e *Engine) Run(prop string, ch *kernel.Chooser, st *kernel.Stats) kernel.R
 			st.Inc("probe.same_job_twice_in_one_world")
 		}
 	}
+	for _, sd := range live {
+		sp := e.spec(sd)
+		for _, in := range sp.Inputs {
+			if in.Long {
+				st.Inc("probe.job_with_long_flat_program")
+				break
+			}
+		}
+		for _, ic := range sp.StmtIcpts {
+			if ic.Kind == 3 {
+				st.Inc("probe.job_whose_plugin_replaces_the_root_context")
+				break
+			}
+		}
+	}
 	if len(live) >= 2 {
 		st.Inc("fault.colliding_dynamic_token_ids_between_live_jobs")
 	}
@@ -450,7 +465,7 @@ func init() {
 		RequiredProbes: map[string][]string{
 			"C14": {"probe.switch_while_inside_ParseProgram", "probe.switch_while_inside_Compile", "probe.part_run_as_own_task", "probe.two_parsers_mid_parse_at_once",
 				"fault.build_completed_while_another_task_is_parked_inside_ParseProgram", "fault.two_tasks_compiling_the_same_tree",
-				"fault.compile_completed_while_another_task_is_parked_inside_Compile", "fault.colliding_dynamic_token_ids_between_live_jobs", "probe.nine_or_more_tasks"},
+				"fault.compile_completed_while_another_task_is_parked_inside_Compile", "fault.colliding_dynamic_token_ids_between_live_jobs", "probe.nine_or_more_tasks", "probe.job_with_long_flat_program", "probe.job_whose_plugin_replaces_the_root_context"},
 		},
 		PostBatch: parallelLeg,
 	})
